@@ -243,6 +243,22 @@ func c01HookOrder(c *Ctx) {
 		fwd := false
 		if ok {
 			_, fwd = Match(Bin("+", Op("phi", ""), Const("1")), b["i"])
+			if ph, isPhi := strip(b["i"]).V.(*ssa.Phi); !fwd && isPhi && len(ph.Edges) == 2 {
+				// counter-controlled loop: i starts at 0, steps by 1, and the call runs while i < len(slice)
+				zero, step := false, false
+				for _, e := range ph.Edges {
+					if cst, ok := e.(*ssa.Const); ok && cst.Value != nil && cst.Value.ExactString() == "0" {
+						zero = true
+					}
+					if bo, ok := e.(*ssa.BinOp); ok && bo.Op == token.ADD && bo.X == ssa.Value(ph) {
+						if cst, ok := bo.Y.(*ssa.Const); ok && cst.Value != nil && cst.Value.ExactString() == "1" {
+							step = true
+						}
+					}
+				}
+				_, inBounds := c.Guarded(cs.In, Op("binop", "<", Is(b["i"]), Op("builtin", "len", Is(b["slice"]))), true)
+				fwd = zero && step && inBounds
+			}
 		}
 		c.Check(fwd, "C01.b-hook-order", c.short(topFunc(cs.Fn).String())+" › forward range", cs.In.Pos(), "hook called for element i of the order slice, i ascending by 1", "hooks are not replayed in traversal order")
 		// first argument is the publisher this client syncs
@@ -621,6 +637,15 @@ func c01SegmentLoop(c *Ctx) {
 			if _, m := Match(remPat, x); m {
 				return true
 			}
+			if x.Op == "builtin" && x.Name == "min" && len(x.Args) > 0 {
+				// the smaller of acceptable values is one of them
+				for _, a := range x.Args {
+					if !okVal(a, d+1) {
+						return false
+					}
+				}
+				return true
+			}
 			if x.Op == "phi" {
 				for _, a := range x.Args {
 					if !okVal(a, d+1) {
@@ -650,6 +675,65 @@ func c01SegmentLoop(c *Ctx) {
 		}
 		c.Check(okEdges, "C01.e-depth-flow", key+" › next segment depth", nd.Pos(),
 			"segment depth is the configured segment size until the remaining depth is smaller, then the remaining depth", "segment depth takes a value other than the segment size or the remaining depth")
+		// … and the segment size is kept only where it does not exceed the remaining depth: on every way round the
+		// loop that has computed the remaining depth and keeps the previous value, the branch taken says remaining >= size
+		if okEdges {
+			var rems []*ssa.BinOp
+			instrs(h, func(in ssa.Instruction) {
+				if bo, ok := in.(*ssa.BinOp); ok && bo.Op == token.SUB {
+					if _, m := Match(remPat, c.E(bo)); m {
+						rems = append(rems, bo)
+					}
+				}
+			})
+			notLess := func(f Fact, rem *ssa.BinOp) bool {
+				isRem := func(x *X) bool { x = strip(x); return x != nil && x.V == ssa.Value(rem) }
+				x := strip(f.Cond)
+				if x == nil || x.Op != "binop" || len(x.Args) != 2 {
+					return false
+				}
+				l, r := x.Args[0], x.Args[1]
+				switch {
+				case isRem(l) && okVal(r, 0):
+					return (x.Name == "<" && !f.Val) || (x.Name == ">=" && f.Val) || (x.Name == ">" && f.Val)
+				case isRem(r) && okVal(l, 0):
+					return (x.Name == ">" && !f.Val) || (x.Name == "<=" && f.Val) || (x.Name == "<" && f.Val)
+				}
+				return false
+			}
+			kept, where := true, token.NoPos
+			var walk func(ph *ssa.Phi, d int)
+			walk = func(ph *ssa.Phi, d int) {
+				for i, e := range ph.Edges {
+					pred := ph.Block().Preds[i]
+					if inner, ok := e.(*ssa.Phi); ok && inner != nd && d < 4 {
+						walk(inner, d+1)
+						continue
+					}
+					_, isParam := e.(*ssa.Parameter)
+					if e != ssa.Value(nd) && !isParam {
+						continue
+					}
+					for _, rem := range rems {
+						if !(rem.Block() == pred || rem.Block().Dominates(pred)) {
+							continue
+						}
+						ok := false
+						for _, f := range append(c.FactsAt(pred), edgeFact(c, pred, ph.Block())...) {
+							if notLess(f, rem) {
+								ok = true
+							}
+						}
+						if !ok {
+							kept, where = false, posOf(pred.Instrs[len(pred.Instrs)-1])
+						}
+					}
+				}
+			}
+			walk(nd, 0)
+			c.Check(kept, "C01.e-depth-flow", key+" › segment size kept only while it fits", nd.Pos(),
+				"wherever the remaining depth has been computed and the segment depth keeps its value, the branch taken says remaining >= segment size", "the segment size is kept on a path ("+c.pos(where)+") on which the remaining depth may be smaller: the last segment goes deeper than the depth limit allows")
+		}
 	}
 	if !depthTest {
 		c.Bad("C01.e-loop-tests", key+" › depth exhausted", seg.In.Pos(), "no test of accumulated depth against the limit in the loop")
